@@ -97,7 +97,7 @@ class _Cfg:
     maxterms = 60000
     overflow_atoms = 0
     work = None
-    deadline = None      # wall-clock limit (time.time()) for the decision in progress; polled every ~200k term operations
+    deadline = None      # CPU-time limit (time.process_time(): not affected by machine load) for the decision in progress; polled every ~200k term operations
     ticks = 0
 
 
@@ -107,7 +107,7 @@ CFG = _Cfg()
 def _poll_deadline():
     import time
     CFG.ticks = 0
-    if time.time() > CFG.deadline:
+    if time.process_time() > CFG.deadline:
         raise WorkExceeded()
 
 _ONE = 1
